@@ -164,6 +164,12 @@ theorem regenerated_cot_triangle_identity (p0 p1 p2 : V2 ℝ)
 example : 0 < V2.cross (V2.sub (⟨1, 0⟩ : V2 ℝ) ⟨0, 0⟩) (V2.sub (⟨0, 1⟩ : V2 ℝ) ⟨0, 0⟩) := by
   simp [V2.cross, V2.sub]
 
+/-! ### `Mesh::uv_with_tol`: a query given in another frame is moved into the mesh frame ONCE -/
+
+/-- whatever transform the caller gives, the projection `uv_with_tol` delegates to (after it has moved the point
+    itself — the translator's pattern requires that re-binding) is handed NO transform: the motion is not applied twice -/
+theorem uv_with_tol_moves_the_query_once (t : Option ℝ) : GenRs.uv_delegated_transform t = none := rfl
+
 /-! ### `invert_2x2` (the 2×2 solve inside `best_fit_curve`), from its regenerated determinant and entries.
 The translator's pattern pins the singularity test to the EXACT comparison `det == 0.0`: with a tolerance in its
 place the translation fails and the check reports it. -/
